@@ -87,6 +87,33 @@ fn sz(seed: u64, small: usize) -> usize {
     }
 }
 
+thread_local! {
+    /// R6: build every Vec-backed argument with spare capacity (an EQUAL value in a different in-memory
+    /// representation); the outcome must not depend on it.
+    static ALT_REPR: std::cell::Cell<bool> = const { std::cell::Cell::new(false) };
+}
+
+/// The vector itself, or an equal one that went through a different allocation history.
+fn repr<T>(v: Vec<T>) -> Vec<T> {
+    if ALT_REPR.with(std::cell::Cell::get) {
+        let mut w = Vec::with_capacity(v.len() * 2 + 9);
+        w.extend(v);
+        w.push_within_capacity_dummy();
+        w
+    } else {
+        v
+    }
+}
+
+trait PushPopDummy {
+    fn push_within_capacity_dummy(&mut self);
+}
+
+impl<T> PushPopDummy for Vec<T> {
+    /// (spare capacity is all that differs; nothing is pushed — kept as a hook for future representations)
+    fn push_within_capacity_dummy(&mut self) {}
+}
+
 fn make_pop(seed: u64) -> Pop {
     let mut g = Xo::from_seed(seed);
     let n = sz(seed, 7);
@@ -94,12 +121,21 @@ fn make_pop(seed: u64) -> Pop {
     let width = if g.chance(1, 4) { g.urange(5, 12) } else { g.urange(1, 4) };
     (0..n)
         .map(|_| {
-            let b = Bitstring { bits: (0..width).map(|_| g.coin()).collect() };
+            let b = Bitstring { bits: repr((0..width).map(|_| g.coin()).collect()) };
             let r = count_ones(&b);
             EcIndividual::new(b, r)
         })
-        .collect()
+        .collect::<Vec<_>>()
+        .pipe(repr)
 }
+
+trait Pipe: Sized {
+    fn pipe<R>(self, f: impl FnOnce(Self) -> R) -> R {
+        f(self)
+    }
+}
+
+impl<T> Pipe for T {}
 
 fn show<T: std::fmt::Debug, E: std::fmt::Display>(r: Result<T, E>) -> String {
     match r {
@@ -187,7 +223,7 @@ fn registry() -> Vec<RegOp> {
     let bits = |seed: u64| -> Vec<bool> {
         let mut g = Xo::from_seed(seed);
         let n = sz(seed, 12);
-        (0..n).map(|_| g.coin()).collect()
+        repr((0..n).map(|_| g.coin()).collect())
     };
     v.push(RegOp { name: "WithRate(0.3)/Vec<bool>", f: Box::new(move |s, rng| show(WithRate::new(0.3).mutate(bits(s), rng))) });
     v.push(RegOp {
@@ -208,7 +244,7 @@ fn registry() -> Vec<RegOp> {
             name: "Umad/Vector<u32> with OneOfCloning generator",
             f: Box::new(move |s, rng| {
                 let n = sz(s, 9) as u32;
-                let parent: Vector<u32> = (0..n).collect();
+                let parent: Vector<u32> = Vector { genes: repr((0..n).collect()) };
                 show(umad.mutate(parent, rng).map(|c| c.genes))
             }),
         });
@@ -235,7 +271,8 @@ fn registry() -> Vec<RegOp> {
     let parents = |seed: u64| -> (Vec<u32>, Vec<u32>) {
         let n = sz(seed, 8) as u32;
         let m = if seed % 11 == 0 { n + 1 } else { n };
-        ((0..n).collect(), (100..100 + m).collect())
+        // (only the FIRST parent gets the alternative representation: the two then differ in capacity)
+        (repr((0..n).collect()), (100..100 + m).collect())
     };
     v.push(RegOp { name: "TwoPointXo/[Vec;2]", f: Box::new(move |s, rng| { let (a, b) = parents(s); show(TwoPointXo.recombine([a, b], rng)) }) });
     v.push(RegOp { name: "TwoPointXo/(Vec,Vec)", f: Box::new(move |s, rng| show(TwoPointXo.recombine(parents(s), rng))) });
@@ -245,14 +282,14 @@ fn registry() -> Vec<RegOp> {
         name: "TwoPointXo/[Bitstring;2]",
         f: Box::new(move |s, rng| {
             let n = sz(s, 8);
-            show(TwoPointXo.recombine([Bitstring { bits: vec![false; n] }, Bitstring { bits: vec![true; n] }], rng))
+            show(TwoPointXo.recombine([Bitstring { bits: repr(vec![false; n]) }, Bitstring { bits: vec![true; n] }], rng))
         }),
     });
     v.push(RegOp {
         name: "UniformXo/(Bitstring,Bitstring)",
         f: Box::new(move |s, rng| {
             let n = sz(s, 8);
-            show(UniformXo.recombine((Bitstring { bits: vec![false; n] }, Bitstring { bits: vec![true; n] }), rng))
+            show(UniformXo.recombine((Bitstring { bits: repr(vec![false; n]) }, Bitstring { bits: vec![true; n] }), rng))
         }),
     });
     // generators and distributions
@@ -471,6 +508,28 @@ impl C16 {
                     format!("rerun-differs:{name}"),
                     format!("{name}: call #{i} from an equal generator state gave {:?} the first time and {:?} the second", ra[i], ra2[i]),
                 ));
+            }
+        }
+        // R6: equal arguments in another in-memory representation (Vec-backed genomes / populations built with
+        // spare capacity): capacity is not part of a value, so nothing may depend on it
+        {
+            ALT_REPR.with(|a| a.set(true));
+            let alt = reference(&base_a);
+            ALT_REPR.with(|a| a.set(false));
+            if let Ok(alt) = alt {
+                obs.hit("fault.ambient-equal-arguments-with-spare-capacity");
+                obs.count("steps", data.len() as u64);
+                if alt != ra {
+                    let i = ra.iter().zip(&alt).position(|(x, y)| x != y).unwrap_or(0);
+                    v.push(Violation::new(
+                        "nothing-else-influences-the-outcome",
+                        format!("capacity-dependent:{name}"),
+                        format!(
+                            "{name}: call #{i} gave {:?} on arguments built exactly and {:?} on EQUAL arguments built with spare capacity",
+                            ra[i], alt[i]
+                        ),
+                    ));
+                }
             }
         }
         // R2a: the same in a freshly spawned OS thread (fresh thread-locals)
